@@ -131,6 +131,17 @@ impl Run {
         match (self.run_idx % 4, name) {
             (1, "e2") | (2, "e1") => s = [0u8; 32],
             (2, "e2") => s = [0xffu8; 32],
+            // ... or values everybody knows: the id of a stored credential (zero-padded / cut to 32 bytes), the SHA-256
+            // of a relying-party id
+            (3, "e1") => {
+                let ids = self.seen_ids.clone();     // the store's initial ids and those created so far
+                if let Some(id) = ids.last() {
+                    s = [0u8; 32];
+                    let n = id.len().min(32);
+                    s[..n].copy_from_slice(&id[..n]);
+                }
+            }
+            (3, "e2") => s = crate::rp::sha256(&self.sh.lock().unwrap().dict.rp_string("r1").as_bytes()),
             _ => {}
         }
         self.salts.push((name.to_string(), s));
@@ -489,6 +500,17 @@ impl Run {
     /// the store changes the discoverability support it reports.  The authenticator object stays the same.
     fn reconfigure(&mut self, c: &Value) {
         let r = &c["req"];
+        if c["op"] == "rebuild" {
+            // another authenticator object, built from the changed configuration, takes over the store's contents
+            for (k, v) in r.as_object().unwrap() {
+                self.cfg[k.as_str()] = v.clone();
+            }
+            let creds = self.client.as_ref().unwrap().authenticator().store().contents();
+            let auth = build_auth(&self.cfg, creds, &self.sh);
+            self.client = Some(passkey_client::Client::new(auth).allows_insecure_localhost(self.cfg["localhost"].as_bool().unwrap_or(false)));
+            self.push(json!({"ev": "Reconfig", "d": {"cfg": self.cfg}}));
+            return;
+        }
         for k in ["uvCap", "upCap", "disc"] {
             self.cfg[k] = r[k].clone();
         }
@@ -680,16 +702,31 @@ pub fn replay(args: &Args) {
     let child = args.get("child").is_some();
     let mut out = Sink::create(args.req("out"));
     for (i, b) in beh.iter().enumerate().skip(from) {
-        let mut run = Run::new(seed.wrapping_mul(1_000_003).wrapping_add(i as u64));
-        if child {
-            crate::cer::set_write_through(args.req("out"));
-        }
-        run.reset(i as u64, &b["cfg"], &b["store"]);
-        for c in b["cers"].as_array().unwrap() {
-            run.ceremony(c);
-        }
+        // every behaviour runs on a thread of its own (callers of a library live on many threads: whatever the library
+        // keeps per thread - random generators, caches - starts afresh, whatever it keeps per process is shared)
+        let log = std::thread::scope(|s| {
+            std::thread::Builder::new()
+                .stack_size(8 << 20)
+                .spawn_scoped(s, || {
+                    let mut run = Run::new(seed.wrapping_mul(1_000_003).wrapping_add(i as u64));
+                    if child {
+                        crate::cer::set_write_through(args.req("out"));
+                    }
+                    run.reset(i as u64, &b["cfg"], &b["store"]);
+                    for c in b["cers"].as_array().unwrap() {
+                        run.ceremony(c);
+                    }
+                    run.take_log()
+                })
+                .expect("spawn")
+                .join()
+        });
+        let log = match log {
+            Ok(l) => l,
+            Err(p) => std::panic::resume_unwind(p),
+        };
         if !child {
-            for e in run.take_log() {
+            for e in log {
                 out.emit(e);
             }
         }
